@@ -56,10 +56,42 @@ class Sym:
         self.value_seqs = vlw.seqs if vlw else {}
 
 
-def tables(rm):
-    regs = {}
+class Regs(dict):
+    """{class: [Sym]} plus `names` {class: registry names, whether or not their triple is understood} and `opaque` {classes with a
+    registration whose triple is not understood}: while `opaque` is non-empty "this identifier is declared nowhere" cannot be concluded"""
+
+    def __init__(self):
+        super().__init__()
+        self.names, self.opaque = {}, set()
+
+    def judge(self, ctx, ok, rule, key, where, msg, **kw):
+        # (a fixed IDX_<species> is undefined whatever is registered)
+        if not ok and self.opaque and "names a fixed species" not in msg:
+            ctx.unrec(rule, key, where, f"{msg} -- but registrations of {sorted(self.opaque)} are not understood, so an undeclared identifier cannot be concluded")
+        else:
+            ctx.check(ok, rule, key, where, msg, **kw)
+
+
+def tables(rm, ctx=None):
+    """{class: [Sym]} of the registrations whose (symbol, value, kind) triple is understood; one that is not (the triple comes out
+    of a call the reconstruction cannot follow) is reported as UNRECOGNISED once and left out -- never guessed"""
+    regs = Regs()
     for c in REACTION_CLASSES + GRAIN_CLASSES + ["ThermalProcess"]:
-        regs[c] = [Sym(r) for r in rm.effective_registry(c).values()]
+        regs[c] = []
+        if c != "KROMEReaction" and any(r["op"] == "register" and (r["loops"] or r["name"][0] != "const") for r in rm.registry(c)):
+            # a registration inside a loop that was not unrolled / under a computed name: the set of registered names is not known
+            # (KROME registers the user's @var / @common names that way -- those are out of scope)
+            regs.opaque.add(c)
+        for r in rm.effective_registry(c).values():
+            regs.names.setdefault(c, set()).add(r["name"][1])
+            s = Sym(r)
+            if s.text is None or not isinstance(s.kind, str):
+                regs.opaque.add(c)
+                if ctx is not None and r["cls"] == c:
+                    ctx.unrec("R1", f"{c}.__init__:register({r['name'][1]!r}):triple", (r["file"], r["line"]),
+                              "cannot read the (symbol, value, kind) triple of this registration: which C identifier it declares is unknown")
+                continue
+            regs[c].append(s)
     return regs
 
 
@@ -85,7 +117,7 @@ def idents_of(text):
 def check(ctx):
     rm = ratemodel(ctx.tree)
     pkg = package(ctx.tree)
-    regs = tables(rm)
+    regs = tables(rm, ctx)
     nreg = sum(len(v) for v in regs.values())
     ctx.stats["registered_symbols"] = nreg
     ctx.floor("R2", "registrations", nreg, 120)
@@ -142,19 +174,24 @@ def _r1(ctx, rm, pkg, regs):
     n = 0
     for cls in REACTION_CLASSES + GRAIN_CLASSES + ["ThermalProcess"]:
         ci = pkg.cls(cls)
-        names = {s.name for s in regs[cls]}
         for mname, fn in ci.methods.items():
             for N, line in _symbol_reads(fn, "self"):
                 n += 1
                 # the method is inherited by subclasses: the name must be in their registries too
                 users = [cls] + [c for c in pkg.subclasses(cls) if c in regs]
-                missing = [u for u in users if N not in {s.name for s in regs[u]}]
-                ctx.check(not missing, "R1", f"{cls}.{mname}:self.symbols.{N}", (ci.file, line),
+                missing = [u for u in users if N not in regs.names.get(u, ())]
+                regs.judge(ctx, not missing, "R1", f"{cls}.{mname}:self.symbols.{N}", (ci.file, line),
                           f"`{N}` is registered by {cls}" + (" and its subclasses" if len(users) > 1 else "") if not missing else
                           f"`{N}` is read through self.symbols but not registered by {missing}")
     ctx.floor("R1", "self.symbols reads", n, 55)
     # reac.symbols.N inside grain methods: informational (generation-time AttributeError, not an undeclared C symbol)
-    feas = delegated_types(rm)
+    from ..core import AnalysisError
+    try:
+        feas = delegated_types(rm)
+    except AnalysisError as e:
+        # the code tables only feed the informational notes below
+        ctx.note(f"generation-time refusals not enumerated: {e}")
+        feas = {}
     gmeth = grain_methods(rm)
     notes = []
     for G in GRAIN_CLASSES:
@@ -173,7 +210,7 @@ def _r1(ctx, rm, pkg, regs):
             for f in chain:
                 for N, line in _symbol_reads(f, "reac"):
                     for F, taus in feas.items():
-                        if tau in taus and N not in {s.name for s in regs[F]}:
+                        if tau in taus and N not in regs.names.get(F, ()):
                             notes.append(f"{F} x {G}.{mname} (type {tau}): reac.symbols.{N} is not registered by {F} -> AttributeError at generation time")
     ctx.stats["generation_time_refusals"] = len(notes)
     for s in notes[:12]:
@@ -274,10 +311,45 @@ def _texts_of_class(rm, pkg, cls, regs):
     return out
 
 
+_DATA_CALLS = {"str", "float", "int", "round", "abs", "len", "repr", "format", "max", "min"}
+_STR_METHODS = {"lower", "upper", "strip", "lstrip", "rstrip", "replace", "capitalize", "title", "removeprefix", "removesuffix", "format", "get"}
+
+
+def _opaque_holes(v, surface):
+    """holes of a rate template that paste TEXT produced by a call the reconstruction could not follow (a helper that was not
+    inlined, a method of a record): whatever identifiers that text contains were not looked at.  Data holes -- attribute reads,
+    `x or default`, subscripts, str()/float() of data, string methods of a name, the shared surface-rate helper (read on its own) -- are fine."""
+    out = []
+    for ir in list(v.holes.values()) + list(v.seqs.values()):
+        for x in walk(ir):
+            if not (isinstance(x, tuple) and x):
+                continue
+            if x[0] == "unknown":
+                out.append(x)
+            elif x[0] == "call" and len(x) == 4 and not (x[1][0] == "global" and x[1][1] in _DATA_CALLS):
+                out.append(x)
+            elif x[0] == "meth" and len(x) == 5 and not (x[2] in _STR_METHODS or (x[1] == SELF and x[2] == surface)):
+                out.append(x)
+    return out
+
+
 def _r2(ctx, rm, pkg, regs, protos, consts, universal):
     n = 0
     seen = set()
+    from ..ratemodel import surface_helper
+    surface = surface_helper(pkg)
     for cls in REACTION_CLASSES + GRAIN_CLASSES + ["ThermalProcess"]:
+        if cls != "KROMEReaction" and cls != "ThermalProcess":
+            for m in [m for m in pkg.cls(cls).methods if (m == "rateexpr" and cls != "Grain") or m.startswith("rate_") or m == surface]:
+                for v in rm.variants(cls, m):
+                    if v.defined_in != cls:
+                        continue
+                    if v.kind == "text":
+                        for x in _opaque_holes(v, surface)[:1]:
+                            ctx.unrec("R2", f"{cls}.{m}:pasted text", (v.file, v.line), f"the rate expression pastes text computed by `{show(x)[:80]}`, which the reconstruction "
+                                      "could not follow: the identifiers in that text are not checked")
+                    elif v.kind not in ("raise", "notimplemented", "delegate"):
+                        ctx.unrec("R2", f"{cls}.{m}:rate text", (v.file, v.line), f"a value returned as rate expression is not understood ({v.kind}): {show(v.raw)[:100] if isinstance(v.raw, tuple) else v.raw}")
         for label, text, file, line in _texts_of_class(rm, pkg, cls, regs):
             try:
                 ids = idents_of(text)
@@ -290,7 +362,7 @@ def _r2(ctx, rm, pkg, regs, protos, consts, universal):
                 seen.add((cls, label, x))
                 n += 1
                 ok, why = classify_ident(x, cls, regs, protos, consts, universal)
-                ctx.check(ok, "R2", f"{label}:{x}", (file, line), why if not ok else f"`{x}`: {why}", found=text[:120] if not ok else None)
+                regs.judge(ctx, ok, "R2", f"{label}:{x}", (file, line), why if not ok else f"`{x}`: {why}", found=text[:120] if not ok else None)
     # thermal process instances
     tp = "naunet/thermalprocess.py"
     ctx.saw(tp)
@@ -300,13 +372,13 @@ def _r2(ctx, rm, pkg, regs, protos, consts, universal):
             text = node.value.args[1].value
             try:
                 ids = idents_of(text)
-            except calg.CParseError as ex:
-                ctx.bad("R2", f"{node.targets[0].id}:syntax", (tp, node.lineno), f"rate text is not a C expression: {ex}")
-                continue
+            except calg.CParseError:
+                # (the small C parser does not read it: the identifiers are still the words of the text)
+                ids = {w: {"var"} for w in re.findall(r"[A-Za-z_]\w*", text)}
             for x in sorted(ids):
                 n += 1
                 ok, why = classify_ident(x, "ThermalProcess", regs, protos, consts, universal)
-                ctx.check(ok, "R2", f"{node.targets[0].id}:{x}", (tp, node.lineno), why, found=text[:100] if not ok else None)
+                regs.judge(ctx, ok, "R2", f"{node.targets[0].id}:{x}", (tp, node.lineno), why, found=text[:100] if not ok else None)
     ctx.floor("R2", "identifier uses", n, 250)
 
 
@@ -555,27 +627,65 @@ def _r5(ctx, pkg):
     _collect_rule(ctx, pkg)
     # Component.params/deriveds/constants filter by the right kind
     comp = pkg.cls("Component")
+    CF = "naunet/component.py"
+    # module-level `NAME = attrgetter("a", "b")` bound once: NAME(x) is (x.a, x.b)
+    getters, count = {}, {}
+    for nd in ast.walk(pkg.modules[CF]):
+        if isinstance(nd, ast.Name) and isinstance(nd.ctx, (ast.Store, ast.Del)):
+            count[nd.id] = count.get(nd.id, 0) + 1
+    for st_ in pkg.modules[CF].body:
+        if isinstance(st_, ast.Assign) and len(st_.targets) == 1 and isinstance(st_.targets[0], ast.Name) and count.get(st_.targets[0].id) == 1 \
+                and isinstance(st_.value, ast.Call) and ast.unparse(st_.value.func) in ("attrgetter", "operator.attrgetter") and st_.value.args and not st_.value.keywords \
+                and all(isinstance(a, ast.Constant) and isinstance(a.value, str) and a.value.isidentifier() for a in st_.value.args):
+            getters[st_.targets[0].id] = tuple(a.value for a in st_.value.args)
+
+    def got(x):
+        """applications of those getters written out"""
+        if not isinstance(x, tuple):
+            return x
+        x = tuple(got(y) if isinstance(y, tuple) else y for y in x)
+        if len(x) == 4 and x[0] == "call" and x[1][0] == "global" and x[1][1] in getters and len(x[2]) == 1 and not x[3]:
+            names = getters[x[1][1]]
+            return ("attr", x[2][0], names[0]) if len(names) == 1 else ("tuple", tuple(("attr", x[2][0], nm) for nm in names))
+        return x
     for prop, kind in (("params", "param"), ("deriveds", "derived"), ("constants", "constant")):
         f = comp.methods.get(prop)
-        good = False
-        if f is not None:
-            def _res(name, _pkg=pkg):
-                _, g_ = _pkg.resolve("Component", name)
-                return g_ if name.startswith("_") and not name.startswith("__") else None
-            for rf in Flow(f, "naunet/component.py", resolver=_res).facts:
-                if rf.kind == "return" and rf.value:
-                    v = simp(rf.value)
-                    # whatever the nesting / spelling (comprehension over .items() or .values(), a filtering helper, dict(),
-                    # OrderedDict(), a folded loop): pairs (x.symbol, x.value), one filter x.type == VariableType.<kind>,
-                    # drawn from self._symbols
-                    pairs = [x for x in walk(v) if isinstance(x, tuple) and len(x) == 2 and x[0] == "tuple" and len(x[1]) == 2
-                             and x[1][0][0] == "attr" and x[1][0][2] == "symbol" and x[1][1][0] == "attr" and x[1][1][2] == "value" and x[1][0][1] == x[1][1][1]]
-                    tests = [x for x in walk(v) if isinstance(x, tuple) and len(x) == 3 and x[0] == "cmp"]
-                    kind_tests = [x for x in tests if x[1] == ("Eq",) and x[2][0][0] == "attr" and x[2][0][2] == "type" and x[2][1] == ("attr", ("global", "VariableType"), kind)]
-                    src = any(isinstance(x, tuple) and len(x) == 5 and x[0] == "meth" and x[1] == ("attr", SELF, "_symbols") and x[2] in ("items", "values") for x in walk(v))
-                    good = len(pairs) >= 1 and len(kind_tests) >= 1 and len(tests) == len(kind_tests) and src
-        ctx.check(good, "R5", f"Component.{prop}", ("naunet/component.py", f.lineno if f else 0),
-                  f"Component.{prop} maps symbol -> value for the symbols of kind `{kind}`")
+        if f is None:
+            ctx.missing("R5", f"Component.{prop}", (CF, 0), "property vanished")
+            continue
+        good, wrong, seen_ = False, [], []
+
+        def _res(name, _pkg=pkg):
+            _, g_ = _pkg.resolve("Component", name)
+            return g_ if name.startswith("_") and not name.startswith("__") else None
+        for rf in Flow(f, CF, resolver=_res).facts:
+            if rf.kind == "return" and rf.value:
+                v = got(simp(rf.value))
+                seen_.append(show(v)[:140])
+                # whatever the nesting / spelling (comprehension over .items() or .values(), a filtering helper, dict(),
+                # OrderedDict(), a folded loop, map/filter, attrgetter): pairs (x.symbol, x.value), one filter x.type == VariableType.<kind>,
+                # drawn from self._symbols
+                pairs = [x for x in walk(v) if isinstance(x, tuple) and len(x) == 2 and x[0] == "tuple" and len(x[1]) == 2
+                         and x[1][0][0] == "attr" and x[1][0][2] == "symbol" and x[1][1][0] == "attr" and x[1][1][2] == "value" and x[1][0][1] == x[1][1][1]]
+                tests = [x for x in walk(v) if isinstance(x, tuple) and len(x) == 3 and x[0] == "cmp"]
+                type_tests = [x for x in tests if x[1] == ("Eq",) and x[2][0][0] == "attr" and x[2][0][2] == "type" and x[2][1][0] == "attr" and x[2][1][1] == ("global", "VariableType")]
+                kind_tests = [x for x in type_tests if x[2][1][2] == kind]
+                src = any(isinstance(x, tuple) and len(x) == 5 and x[0] == "meth" and x[1] == ("attr", SELF, "_symbols") and x[2] in ("items", "values") for x in walk(v))
+                good = len(pairs) >= 1 and len(kind_tests) >= 1 and len(tests) == len(kind_tests) and src
+                # understood and wrong: the selection tests the variable's type against ANOTHER kind, or has a second condition
+                if pairs and src and type_tests and len(type_tests) != len(kind_tests):
+                    wrong.append(f"selects the variables of kind {sorted({x[2][1][2] for x in type_tests} - {kind})}")
+                elif pairs and src and kind_tests and len(tests) > len(kind_tests):
+                    wrong.append("the selection has a further condition: " + "; ".join(show(x)[:60] for x in tests if x not in kind_tests))
+                elif pairs and src and not tests:
+                    wrong.append("no selection by the variable's type")
+        msg = f"Component.{prop} maps symbol -> value for the symbols of kind `{kind}`"
+        if good:
+            ctx.ok("R5", f"Component.{prop}", (CF, f.lineno), msg)
+        elif wrong:
+            ctx.bad("R5", f"Component.{prop}", (CF, f.lineno), msg, found="; ".join(wrong))
+        else:
+            ctx.unrec("R5", f"Component.{prop}", (CF, f.lineno), f"cannot see which registered variables Component.{prop} returns: {'; '.join(seen_) or 'no return'}")
 
 
 def _generator_as_expression(fn):
@@ -808,11 +918,10 @@ def _r6(ctx, pkg, regs, protos, consts, universal):
                 n += 1
                 try:
                     ids = set(idents_of(fac))
-                except calg.CParseError as ex:
-                    ctx.bad("R6", f"{f.split('/')[-2]}:{spec}:{fac}", (f, 0), f"modifier factor is not a C expression: {ex}")
-                    continue
+                except calg.CParseError:
+                    ids = set(re.findall(r"[A-Za-z_]\w*", fac))
                 bad = [x for x in ids if x not in avail and x not in CMATH and x not in protos and x not in consts]
-                ctx.check(not bad, "R6", f"{f.split('/')[-2]}:{spec}:{fac}", (f, 0),
+                regs.judge(ctx, not bad, "R6", f"{f.split('/')[-2]}:{spec}:{fac}", (f, 0),
                           f"factor uses symbols registered by {classes + ([g] if g else [])}" if not bad else f"{bad} not registered by the example's format/grain classes {classes + [g]}")
     ctx.floor("R6", "example modifier factors", n, 4)
 
